@@ -20,6 +20,9 @@ def plan(pid, tier, seed):
         runs.append(("drive", lambda: engines.drive(tier, seed)))
         # the same histories in a release build (debug-only assertions off, overflow checks off)
         runs.append(("drive-release", lambda: engines.drive(tier, seed, release=True, small=True)))
+        # the same driver on another declaration shape of the harness world (other declaration order,
+        # ids, column orders -- the same component at different column positions -- and a 9-column Aw)
+        runs.append(("drive-shapeb", lambda: engines.drive(tier, seed, small=True, shape="b", label="drive-shapeb")))
     if pid in ("C13", "C03"):
         runs.append(("world_tour", lambda: engines.world_tour(tier, seed)))
     if pid in ("C06", "C07"):
@@ -44,7 +47,7 @@ def plan(pid, tier, seed):
         runs.append(("boundary-events", lambda: engines.boundary(tier, seed, features=("events",))))
     if pid in ("C08", "C10", "C01"):
         runs.append(("boundary-wrapping", lambda: engines.boundary(tier, seed, features=("wrapping_version",))))
-    if pid in ("C05",):
+    if pid in ("C05", "C06", "C07"):
         runs.append(("match", lambda: macroeng.match_enum(tier, seed)))
     if pid in ("C15", "C16", "C08"):
         runs.append(("ids", lambda: macroeng.ids_enum(tier, seed)))
